@@ -516,14 +516,22 @@ namespace awkward {
         }
       }
       if (out == -1) {
-        try {
-          out = (int64_t) std::stoi(key);
+        // a key that is not a field name may still be the position of a
+        // field, written as a plain decimal number ("0", "1", ...): nothing
+        // else (no sign, whitespace, leading zeros or trailing characters)
+        bool isposition = (!key.empty()  &&  key.length() <= 18  &&
+                           (key.length() == 1  ||  key[0] != '0'));
+        for (size_t i = 0;  isposition  &&  i < key.length();  i++) {
+          if (key[i] < '0'  ||  key[i] > '9') {
+            isposition = false;
+          }
         }
-        catch (std::invalid_argument err) {
+        if (!isposition) {
           throw std::invalid_argument(
             std::string("key ") + quote(key)
             + std::string(" does not exist (not in record)") + FILENAME(__LINE__));
         }
+        out = (int64_t) std::stoll(key);
         if (!(0 <= out && out < numfields)) {
           throw std::invalid_argument(
             std::string("key interpreted as fieldindex ") + key
